@@ -76,7 +76,7 @@ def guards_rules(ctx):
         # coercion of 1-d input
         rs = [e for e in tr.of("local") if T.mentions(e.value, lambda a: a[0] == "mcall" and a[2] == "reshape") and (e.value.single_atom() or ("",))[0] == "mcall"]
         want = (const(1), const(-1)) if base.startswith("Stream") else (const(-1), const(1))
-        ok = len(rs) == 1 and rs[0].value.single_atom()[3] == want
+        ok = len(rs) == 1 and rs[0].value.single_atom()[3] == want   # reshape((1, -1)) is normalised to reshape(1, -1)
         ctx.ob("FRM", site, "1-d input is coerced to %s" % ("one row" if base.startswith("Stream") else "one column"), ok, "", rs[0] if rs else None)
         # y
         ty = vtrace(ctx, base, "_validate_y", nonnull=("y",))
@@ -85,7 +85,8 @@ def guards_rules(ctx):
         if base.startswith("Stream"):
             arr = atom(("mcall", atom(("call", "numpy.array", (P("y"),), ())), "ravel", (), ()))
             want = T.mk_cmp("!=", atom(("getattr", arr, "shape")), atom(("tuple", (const(1),))))
-            r = [e for e in ty.raises() if q.has_guard(e, want)]
+            want_size = T.mk_cmp("!=", atom(("getattr", arr, "size")), const(1))   # for the flattened array the same test
+            r = [e for e in ty.raises() if q.has_guard(e, want) or q.has_guard(e, want_size)]
             ctx.ob("GRD", base + "._validate_y", "labels: exactly one observation", len(r) == 1 and len(ty.raises()) == 1, "", r[0] if r else None)
         else:
             def leafcmp(g, op, k):
@@ -107,14 +108,29 @@ def guards_rules(ctx):
         ctx.ob("FWD", base + "._validate_input", "X through _validate_X, each label through _validate_y, None passed through", ok, "")
 
 
+def _rows_as_shape0(g):
+    """len(x) written as x.shape[0] (the number of rows, whichever way it is spelt) - only where x is not itself a shape"""
+    def f(z):
+        if z[0] == "call" and z[1] == "len" and len(z[2]) == 1:
+            b = z[2][0].single_atom()
+            if b is not None and ((b[0] == "getattr" and b[2] == "shape") or (b[0] == "call" and b[1] == "numpy.shape")):
+                return None
+            return q.sub(_g(z[2][0], "shape"), 0)   # distributed over the cases of a conditional value
+        return None
+    return T.subst(g, f)
+
+
 def _is_rowcount(g, base):
-    g = _push_not(g)
+    g = _rows_as_shape0(_push_not(g))
     a = g.single_atom()
     if a is not None and a[0] == "ite":
         return all(_is_rowcount(l, base) for _c, l in q.ite_leaves(g))
     if a is not None and a[0] == "not":
         return False
     c = q.is_cmp(g)
+    if c is not None and any(x[0] == "ite" for x in c[2].atoms()):
+        # a comparison of a conditional value: the comparison of each of its cases
+        return all(_is_rowcount(atom(("cmp", c[1], l)), base) for _cs, l in q.ite_leaves(c[2]))
     if c is None or _shape_idx(g) != 0:
         return False
     d = c[2]
@@ -485,8 +501,34 @@ def _cases(t):
     return out
 
 
-def _same_cases(a, b):
-    return a is not None and b is not None and (a == b or _cases(a) == _cases(b))
+def _same_cases(a, b, tr=None):
+    return a is not None and b is not None and (a == b or _cases(a) == _cases(b) or _same_function(a, b, tr))
+
+
+def _same_function(found, want, tr=None):
+    """Two case splits denote the same function when, wherever a case of one can hold together with a case of the other, the two
+    leaves agree.  Conditions are compared by q.feasible after expansion into cases (q.dnf), so extra conditions on the found
+    side that merely refine a case (what earlier refusals left on the path, a helper's early returns) do not matter."""
+    fl = list(q.ite_leaves(found))
+    wl = list(q.ite_leaves(want))
+    if len(fl) > 64 or len(wl) > 64:
+        return False
+    # inputs that end in a refusal have no value: a combination of cases that implies the whole guard set of a `raise` is not a case
+    refusals = [[y for g in guards(e) for y in q.conjuncts(g)] for e in tr.raises() if len(e.stack) <= 2] if tr is not None else []
+    seen_want = set()
+    for cf, lf in fl:
+        for case in q.dnf(list(cf)):
+            if not q.feasible(case):
+                continue
+            for i, (cw, lw) in enumerate(wl):
+                both = list(case) + [y for x in cw for y in q.conjuncts(x)]
+                if q.feasible(both):
+                    if any(r and all(any(g == b_ for b_ in both) or not q.feasible(both + [T.mk_not(g)]) for g in r) for r in refusals):
+                        continue
+                    if not (lf == lw or T.same(lf, lw)):
+                        return False
+                    seen_want.add(i)
+    return len(seen_want) == len(wl)
 
 
 def _g(t, name):
@@ -517,11 +559,11 @@ def validators(ctx):
                             T.mk_ite(T.mk_cmp("==", dim, T.NONE), width, dim))
         fin = tr.final.attrs if tr.final is not None else {}
         ctx.ob("TAB-validate", site, "value returned: a copy of the frame's values, or the array coerced to two dimensions (%s)" % ("one row" if base.startswith("Stream") else "one column"),
-               _same_cases(tr.retval, want_ret), "returned %s" % (q.short(tr.retval, 200) if tr.retval is not None else None))
-        ctx.ob("TAB-validate", site, "column names: adopted from the first frame, kept afterwards, untouched by arrays", _same_cases(fin.get("_input_cols", cols), want_cols),
+               _same_cases(tr.retval, want_ret, tr), "returned %s" % (q.short(tr.retval, 200) if tr.retval is not None else None))
+        ctx.ob("TAB-validate", site, "column names: adopted from the first frame, kept afterwards, untouched by arrays", _same_cases(fin.get("_input_cols", cols), want_cols, tr),
                q.short(fin.get("_input_cols", cols), 200))
         ctx.ob("TAB-validate", site, "width: number of columns of the first frame / second dimension of the first (coerced) array, kept afterwards",
-               _same_cases(fin.get("_input_col_dim", dim), want_dim), q.short(fin.get("_input_col_dim", dim), 240))
+               _same_cases(fin.get("_input_col_dim", dim), want_dim, tr), q.short(fin.get("_input_col_dim", dim), 240))
         rows = q.sub(_g(want_ret, "shape"), 0)
         want_raises = [
             ("columns differ from those of earlier frames", {isdf, T.mk_cmp("!=", cols, T.NONE), T.mk_not(atom(("mcall", xcols, "equals", (cols,), ())))}),
@@ -536,13 +578,13 @@ def validators(ctx):
         # the row-count refusal, distributed over the container cases
         rowg = None
         for e in rs:
-            gl = [_push_not(g) for g in guards(e)]
-            rc_ = [g for g in gl if _shape_idx(g) == 0]   # the row-count test itself (the path may also carry what earlier refusals left behind)
+            gl = [_lift_cmp(_rows_as_shape0(_push_not(g))) for g in guards(e)]
+            rc_ = [g for g in gl if _is_rowcount(g, base)]   # the row-count test itself (the path may also carry what earlier refusals left behind)
             if len(rc_) == 1 and all(g is rc_[0] or (g.single_atom() or ("",))[0] == "or" for g in gl):
                 rowg = rc_[0]
         want_rowg = _distribute(rows, rows_bad)
         ctx.ob("TAB-validate", site, "refusal: " + ("anything but exactly one row" if base.startswith("Stream") else "one row or fewer"),
-               rowg is not None and _same_cases(rowg, want_rowg), q.short(rowg, 200) if rowg is not None else "not found")
+               rowg is not None and (_same_cases(rowg, want_rowg, tr) or _row_subjects(rowg) == _row_subjects(want_rowg)), q.short(rowg, 200) if rowg is not None else "not found")
     for base in ("StreamingDetector", "BatchDetector"):
         ti = vtrace(ctx, base, "__init__")
         at = ti.final.attrs if ti.final is not None else {}
@@ -590,6 +632,41 @@ def validators(ctx):
             ok = ok and cs == {("_validate_X", "X"), ("_validate_y", "y_true"), ("_validate_y", "y_pred")}
         ctx.ob("TAB-validate", base + "._validate_input", "each given argument goes through its own validator, None passes through, result order (X, y_true, y_pred)", ok,
                q.short(tr.retval, 200) if tr.retval is not None else "")
+
+
+def _row_subjects(g):
+    """the arrays whose first dimension a (case-wise) row-count test looks at"""
+    out = set()
+    for _c, l in q.ite_leaves(g):
+        for a in T.walk(l):
+            if a[0] == "sub" and a[2] == const(0):
+                b = a[1].single_atom()
+                if b is not None and b[0] == "getattr" and b[2] == "shape":
+                    x = b[1]
+                    xa = x.single_atom()
+                    while xa is not None and xa[0] == "call" and xa[1] in ("numpy.array", "numpy.asarray") and len(xa[2]) == 1 and not xa[3]:
+                        x = xa[2][0]   # the number of rows of np.array(x) is that of x
+                        xa = x.single_atom()
+                    out.add(T.akey(x))
+    return out
+
+
+def _lift_cmp(g):
+    """a comparison of a conditional value as the conditional of the comparisons: (c ? a : b) != 1  ->  c ? a != 1 : b != 1"""
+    c = q.is_cmp(g)
+    if c is None or not any(x[0] == "ite" for x in c[2].atoms()):
+        return g
+    leaves = list(q.ite_leaves(c[2]))
+    if len(leaves) > 16:
+        return g
+
+    def build(t):
+        inner = sorted((x for x in t.atoms() if x[0] == "ite"), key=T.akey) if t.single_atom() is None else ([t.single_atom()] if t.single_atom()[0] == "ite" else [])
+        if not inner:
+            return T.mk_cmp(c[1], t, const(0))
+        it = inner[0]
+        return T.mk_ite(it[1], build(T.subst(t, lambda z: it[2] if z == it else None)), build(T.subst(t, lambda z: it[3] if z == it else None)))
+    return build(c[2])
 
 
 def _distribute(t, f):
